@@ -52,8 +52,10 @@ class HarnessError(Exception):
     pass
 
 
-def run_workers(prop, mode, scratch, jobs, max_par=16):
-    """jobs: list of (name, arg, hashseed, extra_env, conf_src). Returns results in order."""
+def run_workers(prop, mode, scratch, jobs, max_par=16, failures=None):
+    """jobs: list of (name, arg, hashseed, extra_env, conf_src). Returns results in order.
+    failures: when a list is given, a crashed worker is recorded there (its result is None) and the others keep running:
+    a violation another shard finds and a fresh process confirms is still a violation; check() decides what to report."""
     results = [None] * len(jobs)
     running = []
     nxt = 0
@@ -71,7 +73,11 @@ def run_workers(prop, mode, scratch, jobs, max_par=16):
             else:
                 try:
                     results[idx] = _collect(p, outp, log, f"{prop}/{name}")
-                except HarnessError:
+                except HarnessError as e:
+                    if failures is not None:
+                        failures.append(str(e))
+                        shutil.rmtree(wd, ignore_errors=True)
+                        continue
                     for (_, _, _, p2, _, l2) in still + [r for r in running if r[3] is not p]:
                         try:
                             p2.kill()
@@ -83,6 +89,17 @@ def run_workers(prop, mode, scratch, jobs, max_par=16):
         if running:
             time.sleep(0.02)
     return results
+
+
+def _confirm_by_shard(prop, scratch, jobs, v, label="s"):
+    if v.get("_shard") is None:
+        return False
+    name, arg, hs, extra, conf_src = jobs[v["_shard"]]
+    res = run_workers(prop, "run", scratch, [(f"{label}{i}-{name}", arg, hs, extra, conf_src) for i in range(2)], 2)
+    cases = []
+    for r in res:
+        cases.append([json.dumps(x["case"], sort_keys=True) for x in r.get("violations", {}).get(v["signature"], [])])
+    return bool(cases[0]) and cases[0] == cases[1] and json.dumps(v["case"], sort_keys=True) in cases[0]
 
 
 def merge(results):
@@ -120,8 +137,18 @@ def check(prop: str, tier: str, seed: int) -> int:
         for i, sh in enumerate(plan["shards"]):
             sh = dict(sh, tier=tier, seed=seed)
             jobs.append((f"w{i}", sh, sh.get("hashseed", plan.get("hashseed", 0)), sh.get("env"), sh.get("conf_src")))
-        results = run_workers(prop, "run", scratch, jobs, plan.get("max_par", 16))
+        failures = []
+        results = run_workers(prop, "run", scratch, jobs, plan.get("max_par", 16), failures)
+        if failures and not any(r and r.get("violations") for r in results):
+            raise HarnessError(failures[0] + (f"\n(+{len(failures) - 1} more failed workers)" if len(failures) > 1 else ""))
+        for ji, r in enumerate(results):
+            for lst in (r or {}).get("violations", {}).values():
+                for v in lst:
+                    v["_shard"] = ji
+        results = [r for r in results if r is not None]
         m = merge(results)
+        if failures:
+            m["caps"].append(f"{len(failures)} worker(s) crashed; their shards are not covered")
         if hasattr(mod, "post"):
             mod.post(m, results, tier, seed)  # cross-shard oracles (may add violations)
         # ---------------------------------------------------------------- confirm in a fresh process, twice
@@ -142,8 +169,15 @@ def check(prop: str, tier: str, seed: int) -> int:
                     if a != b:
                         raise HarnessError(f"replay of {rp['signature']} is not deterministic: {a} vs {b}")
                     if rp["signature"] not in a:
-                        raise HarnessError(f"violation {rp['signature']} did not reproduce in a fresh process (got {a}); "
-                                           f"harness nondeterminism")
+                        # not a function of the case alone: it may need the calls its shard made before it. A shard is a
+                        # deterministic program; re-run it twice from fresh processes - the same signature on the same case
+                        # both times is a replayable (if long) history, anything else is harness nondeterminism.
+                        v = m["violations"][rp["signature"]][0]
+                        if not _confirm_by_shard(prop, scratch, jobs, v):
+                            raise HarnessError(f"violation {rp['signature']} did not reproduce in a fresh process (got {a}), "
+                                               f"nor by re-running its shard; harness nondeterminism")
+                        v["replay_mode"] = "shard"
+                        v["shard_job"] = list(jobs[v["_shard"]][1:])
                     confirmed[rp["signature"]] = True
         # ---------------------------------------------------------------- known findings protocol
         known = load_known(prop)
@@ -189,6 +223,10 @@ def check(prop: str, tier: str, seed: int) -> int:
         os.makedirs(os.path.join(env.VERIF, "evidence"), exist_ok=True)
         with open(os.path.join(env.VERIF, "evidence", f"{prop}.json"), "w") as f:
             json.dump(ev, f, indent=1, sort_keys=True)
+        for fmsg in failures:
+            print("WORKER-FAILED " + fmsg.splitlines()[0] + " :: " + fmsg.strip().splitlines()[-1][:300])
+        if failures and not new:
+            raise HarnessError(failures[0])
         print(f"{prop} {tier}: evaluations={m['evaluations']} distinct_nontrivial={m['nontrivial']} "
               f"classes={len(m['classes'])} violations={len(new)} known={len(coverage['known_findings_seen'])} "
               f"caps={m['caps']} wall={ev['wall_s']}s")
@@ -204,6 +242,14 @@ def replay(prop: str, path: str) -> int:
     scratch = env.make_scratch(prop.lower() + "-replay")
     try:
         e = v.get("env") or {}
+        if v.get("replay_mode") == "shard":
+            name, arg, hs, extra, conf_src = ["w"] + list(v["shard_job"])
+            ok = _confirm_by_shard(prop, scratch, [(name, arg, hs, extra, conf_src)], dict(v, _shard=0))
+            if ok:
+                print(f"VIOLATION property={prop} replay={path}")
+                return EXIT_VIOLATION
+            print("not reproduced by re-running the shard (property holds on this artefact)")
+            return EXIT_OK
         reps = run_workers(prop, "replay", scratch, [("r0", {"violations": [v]}, e.get("hashseed", 0), e.get("env"), e.get("conf_src"))], 1)
         rp = reps[0]["replays"][0]
         print(json.dumps(rp, indent=1)[:4000])
